@@ -4,6 +4,7 @@ CONSTANTS
   XVerify = {TRUE, FALSE}
   XConnectors = {"custom", "default"}
   XTimeouts = {"none", "short"}
+  XVias = {"dial", "stream-last", "stream-first"}
   XResps = {"success", "refuse", "garbage", "close", "hangup", "wrongid", "stall"}
   XRcs = {2, 10}
   XInjs = {"none", "before", "with", "after"}
